@@ -12,6 +12,7 @@ PROPS = {
     "C18": dict(
         mc=[dict(tla="Bandtss_MC.tla", cfg="Bandtss_MC.cfg", tier="quick", timeout=900),
             dict(tla="Bandtss_MC.tla", cfg="Bandtss_MC_nogroup.cfg", tier="quick", timeout=900),
+            dict(tla="Bandtss_MC.tla", cfg="Bandtss_MC_stale.cfg", tier="quick", timeout=900),
             dict(tla="Bandtss_MC.tla", cfg="Bandtss_MC_deep.cfg", tier="thorough", timeout=3000)],
         gen=dict(tla="Bandtss_Gen.tla", cfg="Bandtss_Gen.cfg", depth=26, num=dict(quick=200, thorough=3000), timeout=900),
         drive=dict(family="bandtss", nrand=dict(quick=250, thorough=5000)),
